@@ -39,8 +39,19 @@ C08Roles(pre, e, post, line) ==
 \* the instruction record the cell's modifiers were applied to
 CellIx(a) == IF a.op = "tx" THEN a.ixs[AuthOps[a.cell].k + 1] ELSE a
 
+\* migrating an account (to a keypair or a PDA account) moves all its balances to a new authority: only the authority's
+\* signature allows it, or the group admin's while the account is frozen
+C08Move(pre, e, post, line) ==
+  (e.ev = "transfer_account" /\ Ok(e) /\ ~Has(e.a, "cell") /\ Has(pre, "accts") /\ Has(pre.accts, e.a.acct)) =>
+    LET ac == pre.accts[e.a.acct]
+        sg == IF Has(e.a, "signer") THEN e.a.signer ELSE ac.auth
+        adm == pre.groups[ac.group].admin
+    IN Chk("C08", "account_migrated_only_by_its_authority_or_by_the_admin_while_frozen", line,
+           IF Bit(ac.flags, ACC_FROZEN) THEN sg = adm ELSE sg = ac.auth, [acct |-> e.a.acct, signer |-> sg])
+
 C08(pre, e, post, line) ==
   /\ C08Roles(pre, e, post, line)
+  /\ C08Move(pre, e, post, line)
   /\ (Has(e.a, "cell")) =>
     LET op == e.a.cell mode == e.a.mode ix == CellIx(e.a) slots == AuthOps[op].slots IN
     /\ (Has(ix, "subst")) =>
